@@ -88,3 +88,16 @@ func vfBreaks(r *FileRestorer, mark int, from, to token.Pos) int {
 
 func vfCap2(x int) int { return vfIte(x >= 2, 2, x) }
 func vfMax0(x int) int { return vfIte(x >= 0, x, 0) }
+
+// vfBreaksAfter counts the line starts recorded at or after index mark that lie in (from, to]: strictly
+// behind from. go/printer's parameter and field list code compares the line of the previous element's
+// End() with the line of the next element's Pos(), so a line break produced by Before/After spacing must
+// start behind the previous element's End(), not at it (the restorer steps over one byte for that).
+func vfBreaksAfter(r *FileRestorer, mark int, from, to token.Pos) int {
+	n := 0
+	for _, l := range r.lines[mark:] {
+		p := token.Pos(r.base + l)
+		n += vfB2I(vfAnd(from < p, p <= to))
+	}
+	return n
+}
